@@ -26,7 +26,7 @@ from .model import var, lit, decl, routine, module
 from . import gen as B
 
 BODY_PROFILE = B.profile(print=True, comments=True, internal=False, real_class='general', max_depth=2,
-                         max_stmts=3, expr_depth=2, n_helpers=1, labelled=True, named=True, layout='full',
+                         max_stmts=2, expr_depth=2, n_helpers=1, labelled=True, named=True, layout='full',
                          sections=True, where=True, select=True)
 BODY_PROFILE['while'] = False
 
@@ -157,6 +157,20 @@ def gen_assoc(g, env, feats, depth=0, outer_names=()):
         pairs.append([name, sel, ent])
     if not pairs:
         return None
+    # an associate name that shadows the variable which a selector of the same statement starts with, e.g.
+    # ASSOCIATE (lv => lv%o%s) or ASSOCIATE (a => ob%x, ob => y): trigger of a listed finding (flag assoc_shadow_root)
+    roots = {p_[1][1][0][0] for p_ in pairs if p_[1][0] == 'd'}
+    for j, p_ in enumerate(pairs):
+        if p_[0] in roots:
+            if getattr(g, 'flags', DEFAULT_FLAGS)['assoc_shadow_root']:
+                feats.add('assoc:name-shadows-selector-root')
+            else:
+                if 'assoc_shadow_root' not in g.avoided:
+                    g.avoided.append('assoc_shadow_root')
+                fresh = f'as{depth}{j}x'
+                taken.discard(p_[0])
+                taken.add(fresh)
+                p_[0] = fresh
     for name, _, ent in pairs:
         for key in [key for key in child.vars if key == name or key.startswith(name + '%')]:
             del child.vars[key]
@@ -220,6 +234,7 @@ def gen_member(g, host_env, idx, feats):
     sub = dict(g.p)
     sub.update(calls=False, print=False, where=False, max_depth=1, select=False)
     g2 = B.G(g.draw, sub)
+    g2.flags, g2.avoided = getattr(g, 'flags', DEFAULT_FLAGS), getattr(g, 'avoided', [])
     body = [['assign', var(nm), B.expr_of(g2, ienv, t, 2)]]
     if g.chance(50):
         body.append(['if', [[B.log_expr(g2, ienv, 1), [['assign', var(nm), B.expr_of(g2, ienv, t, 1)]]]], None])
@@ -316,7 +331,7 @@ def _tin_path(env, obj):
 
 
 # ------------------------------------------------------------------ the project
-DEFAULT_FLAGS = {'print': True, 'casts': True, 'dtsym': True, 'members': True, 'frontend_state': True}
+DEFAULT_FLAGS = {'print': True, 'casts': True, 'dtsym': True, 'members': True, 'frontend_state': True, 'assoc_shadow_root': True}
 
 
 @st.composite
@@ -330,6 +345,8 @@ def projects(draw, thorough=False, kind=None, flags=None):
         dtsym : derived-type names in the ONLY list of an import that the frontend / enrich() resolves
                 (the import then lists the other names and a second, unqualified USE of the module provides the types)
         members : internal (member) procedures
+        assoc_shadow_root : an associate name that shadows the variable its own selector starts with, e.g.
+                ASSOCIATE (lv => lv%o%s)  (off = such a name is replaced by a fresh one)
         frontend_state : judge the units exactly as the frontend (+ enrich) leaves them; off = case['rescope_after_parse']
                 asks for unit.rescope_symbols() on every top-level unit first (AttachScopes normal form: intrinsic
                 names attached to the closest scope, symbols that enrich() left unattached resolved)
@@ -337,10 +354,11 @@ def projects(draw, thorough=False, kind=None, flags=None):
     flags = dict(DEFAULT_FLAGS, **(flags or {}))
     prof = dict(BODY_PROFILE)
     if thorough:
-        prof.update(max_stmts=5, max_depth=3, expr_depth=3)
+        prof.update(max_stmts=4, max_depth=3, expr_depth=3)
     g = B.G(draw, prof)
     feats = set()
     avoided = []
+    g.flags, g.avoided = flags, avoided
     wants_print = g.chance(60)
     if wants_print and not flags['print']:
         avoided.append('print')
@@ -357,7 +375,7 @@ def projects(draw, thorough=False, kind=None, flags=None):
         r, s = B.gen_helper_function(g, k, None)
         t_funcs_r.append(r)
         t_funcs.append(s)
-    for k in range(g.i(1, 2)):
+    for k in range(g.i(1, 2) if thorough else 1):
         r, s = B.gen_helper_sub(g, k, t_funcs, [])
         t_subs_r.append(r)
         t_subs.append(dict(s, imported=True))
